@@ -28,6 +28,40 @@ ATTRS = [
 ]
 
 
+def _pairs():
+    """Every pair of an eq(..) and an ord(..) argument on one field; which one decides follows the documented source
+    selection (cmpmodel): eq before ord, ignore / by exempt the field, a key stands for the field."""
+    from . import cmpmodel as M
+    out = []
+    have = {a[0] for a in ATTRS}
+    for eo in ("ignore", "key", "by"):
+        for oo in ("ignore", "key", "by"):
+            combo = (oo, "-", eo, "-", "-")
+            if M.status("Eq", combo) != "accept" or M.status("PartialEq", combo) != "accept":
+                continue
+            kind, attr = M.source("Eq", combo)
+            for ek in (True, False):
+                for ok in (True, False):
+                    if (eo != "key" and not ek) or (oo != "key" and not ok):
+                        continue
+                    et = {"ignore": "ignore", "by": "by = $BYEQ", "key": "key = " + ("$KEQ" if ek else "$KNE")}[eo]
+                    ot = {"ignore": "ignore", "by": "by = $BYORD", "key": "key = " + ("$KEQ" if ok else "$KNE")}[oo]
+                    for text in (f"#[eq({et})] #[ord({ot})]", f"#[ord({ot})] #[eq({et})]"):
+                        if text in have:
+                            continue
+                        have.add(text)
+                        if kind == "ignored":
+                            out.append((text, "ignore", None))
+                        elif kind == "by":
+                            out.append((text, "by", None))
+                        else:
+                            out.append((text, "key", ek if attr == "eq" else ok))
+    return out
+
+
+ATTRS = ATTRS + _pairs()
+
+
 def subst(attr, ty):
     if ty in ("f64", "u8"):
         keq, kne = "($ as i64)", "($ as f64)"
